@@ -505,6 +505,7 @@ type zzC07Rec struct {
 	name, cli string
 	shape     int
 	host      string // as passed to Add
+	hooked    bool   // the original answer is the scheduling hook (see zzC07Hook)
 }
 
 type zzC07Log struct {
@@ -538,6 +539,8 @@ type zzC07Log struct {
 	queries int
 
 	// Direction B only: incremental reading of the files for the projection.
+	flight []*zzC07Flight
+
 	incremental bool
 	cache       map[string]*zzC07FileCache
 	maxFile     int64
@@ -875,6 +878,10 @@ type zzC07State struct {
 	Ig    bool  `json:"ig"`
 	Ck    int   `json:"ck"`
 	Pal   int   `json:"pal"`
+	Fl    []int `json:"fl"`
+	// Attr: name, client and reason of the stored entries (rotated file,
+	// file, batch, ring).
+	Attr [][]string `json:"attr"`
 }
 
 func zzC07NZ(a []int) (b []int) {
@@ -902,31 +909,46 @@ func (x *zzC07Log) project(pal int) (s zzC07State, err error) {
 	x.l.bufferLock.RUnlock()
 	c := x.conf()
 
-	return zzC07State{
+	s = zzC07State{
 		Mem: zzC07NZ(x.ids(x.ringTimes())), Cur: zzC07NZ(x.ids(cur)), Rot: zzC07NZ(x.ids(rot)),
 		Batch: zzC07NZ(x.batchIDs), Fp: fp, Ms: int(c.MemSize), Fe: c.FileEnabled, En: c.Enabled,
-		An: c.AnonymizeClientIP, Ig: len(c.Ignored.Values()) > 0, Ck: x.clock, Pal: pal,
-	}, nil
-}
+		An: c.AnonymizeClientIP, Ig: len(c.Ignored.Values()) > 0, Ck: x.clock, Pal: pal, Fl: x.flightTicks(),
+		Attr: [][]string{},
+	}
+	for _, l := range [][]int{s.Rot, s.Cur, s.Batch, s.Mem} {
+		if x.incremental {
+			// Direction B compares a compact projection without attributes.
+			break
+		}
 
-// record performs one Add.  The entry's timestamp is whatever time.Now() gave
-// inside Add; it is read back and must be strictly increasing with room for
-// +-1 ns cursors.
-func (x *zzC07Log) record(name, cli string, shape int) {
-	for time.Now().UnixNano() < x.last+2000 {
+		for _, id := range l {
+			if id < 2 || id/2 >= len(x.recs) {
+				s.Attr = append(s.Attr, []string{"?", "?", "?"})
+
+				continue
+			}
+
+			rec := x.recs[id/2]
+			s.Attr = append(s.Attr, []string{rec.name, rec.cli, zzC07Shapes[rec.shape].reason})
+		}
 	}
 
+	return s, nil
+}
+
+// params builds the arguments of Add for a record of the vocabulary.
+func (x *zzC07Log) params(name, cli string, shape int) (p *AddParams, host string) {
 	n := zzC07Names[name]
 	c := zzC07Clients[cli]
 	sh := &zzC07Shapes[shape]
 
-	host := n.ascii
+	host = n.ascii
 	if x.rng.Intn(3) == 0 {
 		host = strings.ToUpper(host[:1]) + host[1:]
 	}
 
 	q := dns.Question{Name: host + ".", Qtype: sh.qtype, Qclass: dns.ClassINET}
-	p := &AddParams{
+	p = &AddParams{
 		Question:          &dns.Msg{Question: []dns.Question{q}},
 		Answer:            zzC07Answer(sh.answer, q, sh.ad),
 		OrigAnswer:        zzC07Answer(sh.orig, q, false),
@@ -943,6 +965,17 @@ func (x *zzC07Log) record(name, cli string, shape int) {
 		_, p.ReqECS, _ = net.ParseCIDR(sh.ecs)
 	}
 
+	return p, host
+}
+
+// record performs one Add.  The entry's timestamp is whatever time.Now() gave
+// inside Add; it is read back and must be strictly increasing with room for
+// +-1 ns cursors.
+func (x *zzC07Log) record(name, cli string, shape int) {
+	for time.Now().UnixNano() < x.last+2000 {
+	}
+
+	p, host := x.params(name, cli, shape)
 	conf := x.conf()
 	before := x.ringNewest()
 
@@ -992,6 +1025,148 @@ func (x *zzC07Log) record(name, cli string, shape int) {
 
 	x.exact[x.clock] = found
 	x.byTime[found] = x.clock
+}
+
+// zzC07Hook is the data of a private-use resource record whose Pack method
+// calls f once.  Add packs the answers after it has taken the entry's time and
+// before it takes the buffer lock: a record with this data in its original
+// answer parks the Add exactly there, which makes the schedule of overlapping
+// Adds (QueryLog!Stamp / Push) deterministic.  Nothing of the query log is
+// replaced or modified.
+type zzC07Hook struct {
+	once *sync.Once
+	f    func()
+}
+
+func (d *zzC07Hook) String() string                   { return "verif" }
+func (d *zzC07Hook) Parse(_ []string) error           { return nil }
+func (d *zzC07Hook) Unpack(_ []byte) (int, error)     { return 0, nil }
+func (d *zzC07Hook) Copy(_ dns.PrivateRdata) error    { return nil }
+func (d *zzC07Hook) Len() int                         { return 0 }
+func (d *zzC07Hook) Pack(_ []byte) (n int, err error) { d.once.Do(d.f); return 0, nil }
+
+// zzC07Flight is an Add between Stamp and Push.
+type zzC07Flight struct {
+	tick    int
+	s0, s1  int64
+	release chan struct{}
+	done    chan struct{}
+	rec     zzC07Rec
+}
+
+// tick appends the bookkeeping of one clock tick (a Stamp, a Push or a whole
+// Add) and returns its number.
+func (x *zzC07Log) tick(t0, t1 int64, rec zzC07Rec) (n int) {
+	x.clock++
+	x.t0, x.t1 = append(x.t0, t0), append(x.t1, t1)
+	x.recs = append(x.recs, rec)
+	x.exact = append(x.exact, 0)
+	x.last = t1
+
+	return x.clock
+}
+
+// stamp starts an Add in its own goroutine and lets it run until it has taken
+// the entry's time and is packing the answers (QueryLog!Stamp).
+func (x *zzC07Log) stamp(name, cli string, shape int) {
+	for time.Now().UnixNano() < x.last+2000 {
+	}
+
+	p, host := x.params(name, cli, shape)
+	f := &zzC07Flight{release: make(chan struct{}), done: make(chan struct{})}
+	f.rec = zzC07Rec{name: name, cli: cli, shape: shape, host: host, hooked: true}
+	parked := make(chan struct{})
+	q := p.Question.Question[0]
+	p.OrigAnswer = &dns.Msg{Question: []dns.Question{q}}
+	p.OrigAnswer.Answer = []dns.RR{&dns.PrivateRR{
+		Hdr:  dns.RR_Header{Name: q.Name, Rrtype: 0xFF00, Class: dns.ClassINET, Ttl: 10},
+		Data: &zzC07Hook{once: &sync.Once{}, f: func() { close(parked); <-f.release }},
+	}}
+
+	f.s0 = time.Now().UnixNano()
+	go func() {
+		defer close(f.done)
+
+		x.l.Add(p)
+	}()
+
+	inFlight := false
+	select {
+	case <-parked:
+		inFlight = true
+	case <-f.done:
+		// Logging is disabled: Add has returned without recording.
+	case <-time.After(10 * time.Second):
+		x.discard = "a concurrent Add neither parked nor returned"
+	}
+
+	f.s1 = time.Now().UnixNano()
+	f.tick = x.tick(f.s0, f.s1, f.rec)
+	if inFlight {
+		x.flight = append(x.flight, f)
+	}
+}
+
+// push lets the i-th parked Add take the buffer lock and push its entry
+// (QueryLog!Push), and finds out which time the entry carries.
+func (x *zzC07Log) push(i int) {
+	if i < 1 || i > len(x.flight) {
+		x.discard = "no such Add in flight"
+
+		return
+	}
+
+	for time.Now().UnixNano() < x.last+2000 {
+	}
+
+	f := x.flight[i-1]
+	x.flight = append(x.flight[:i-1:i-1], x.flight[i:]...)
+
+	p0 := time.Now().UnixNano()
+	close(f.release)
+	select {
+	case <-f.done:
+	case <-time.After(10 * time.Second):
+		x.discard = "a concurrent Add did not return"
+
+		return
+	}
+
+	p1 := time.Now().UnixNano()
+	pt := x.tick(p0, p1, f.rec)
+
+	t := x.ringNewest()
+	owner := 0
+	switch {
+	case t >= f.s0 && t <= f.s1:
+		owner = f.tick
+	case t >= p0 && t <= p1:
+		owner = pt
+	default:
+		// The entry is not where a push puts it; the projection will show it.
+		return
+	}
+
+	for n := 1; n <= x.clock; n++ {
+		if d := x.exact[n] - t; x.exact[n] != 0 && d > -2 && d < 2 {
+			x.discard = fmt.Sprintf("timestamps %d and %d too close", x.exact[n], t)
+
+			return
+		}
+	}
+
+	x.exact[owner] = t
+	x.byTime[t] = owner
+	x.recs[owner] = f.rec
+}
+
+func (x *zzC07Log) flightTicks() (l []int) {
+	l = []int{}
+	for _, f := range x.flight {
+		l = append(l, f.tick)
+	}
+
+	return l
 }
 
 func (x *zzC07Log) prevExact() (v int64) {
@@ -1461,7 +1636,7 @@ func (x *zzC07Log) checkInput(id int, e map[string]any, anon bool) (diff string)
 		want["answer"] = l
 	}
 
-	if a, known := zzC07ExpectAnswer(sh.orig); known && a != nil {
+	if a, known := zzC07ExpectAnswer(sh.orig); known && a != nil && !rec.hooked {
 		l := []any{}
 		for _, m := range a {
 			l = append(l, m)
@@ -1484,6 +1659,11 @@ func (x *zzC07Log) checkInput(id int, e map[string]any, anon bool) (diff string)
 
 	for _, k := range []string{"client_id", "ecs", "rule", "filterId", "service_name", "answer", "original_answer", "status"} {
 		if _, known := zzC07ExpectAnswer(sh.answer); k == "answer" && !known {
+			continue
+		}
+
+		if k == "original_answer" && rec.hooked {
+			// The original answer of this record is the scheduling hook.
 			continue
 		}
 
@@ -1722,6 +1902,16 @@ func (x *zzC07Log) step(in *zzC07Input, st *zzC07Step, expectFp bool) (err error
 
 		k := in.kinds[zzC07ArgInt(st.Args, "kind")-1]
 		x.record(k.Name, k.Cli, zzC07ShapeFor(x.rng, k.Reason))
+	case "stamp":
+		k := in.kinds[zzC07ArgInt(st.Args, "kind")-1]
+		x.stamp(k.Name, k.Cli, zzC07ShapeFor(x.rng, k.Reason))
+	case "push":
+		if expectFp && !x.held && !x.gate {
+			x.l.fileFlushLock.Lock()
+			x.gate = true
+		}
+
+		x.push(zzC07ArgInt(st.Args, "i"))
 	case "enc":
 		// First half of flushLogBuffer.
 		x.l.fileFlushLock.Lock()
@@ -1854,6 +2044,12 @@ func (x *zzC07Log) step(in *zzC07Input, st *zzC07Step, expectFp bool) (err error
 }
 
 func (x *zzC07Log) close() {
+	for _, f := range x.flight {
+		close(f.release)
+		<-f.done
+	}
+
+	x.flight = nil
 	if x.held || x.gate {
 		x.l.fileFlushLock.Unlock()
 		x.held, x.gate = false, false
@@ -2057,11 +2253,21 @@ func (x *zzC07Log) signature(q *zzC07Q, r *zzC07Reply) (sig string) {
 	for _, sg := range q.Sigs {
 		switch q.Class {
 		case "exact":
-			if r.St == "ok" && zzC07EqInts(r.Data, sg.Data) && r.Oldest == sg.Oldest {
+			if sg.Name == "invdisk" {
+				// A cursor request over files that are out of timestamp order:
+				// anything drawn from the selected sequence.
+				if r.St == "ok" && zzC07IsSubseq(r.Data, sg.Data) {
+					return "inv"
+				}
+			} else if r.St == "ok" && zzC07EqInts(r.Data, sg.Data) && r.Oldest == sg.Oldest {
 				return sg.Name
 			}
 		case "window":
-			if sg.Name == "hid" {
+			if sg.Name == "invwin" {
+				if r.St == "ok" && zzC07IsSubseq(r.Data, sg.Data) {
+					return "inv"
+				}
+			} else if sg.Name == "hid" {
 				// An empty page that says "end", entries still to come, and a
 				// hidden on-disk record between the cursor and the next one.
 				if r.St == "ok" && len(r.Data) == 0 && r.Oldest == 0 && len(q.Data) > 0 {
@@ -2232,7 +2438,7 @@ func (r *zzC07Run) windowChain(row *zzC07StateRow, q0 *zzC07Q) {
 
 var zzC07ActPrio = map[string]int{
 	"conf": 1, "enc": 2, "app": 2, "appfail": 2, "rotcheck": 2, "autoflush": 0, "autoflushfail": 0, "rotate": 2, "restart": 2,
-	"rec": 3, "clear": 4,
+	"rec": 3, "stamp": 3, "push": 2, "clear": 4,
 }
 
 // pick chooses the next group to take from state v: an uncovered one if there
@@ -2864,6 +3070,10 @@ func TestZZVerifC07Trace(t *testing.T) {
 			}
 		}
 
+		if _, ok := m["tss"]; !ok {
+			m["tss"] = []int{}
+		}
+
 		for _, k := range []string{"ms", "en", "an", "ig", "n"} {
 			if _, ok := m[k]; !ok {
 				m[k] = 0
@@ -2897,6 +3107,12 @@ func TestZZVerifC07Trace(t *testing.T) {
 		if sh.name == "block-two-long-rules" {
 			longShape = i
 		}
+	}
+
+	if v := zzGetenv("VERIF_C07_BURST"); v != "" {
+		zzC07BurstLog(t, x, emit, w, rng)
+
+		return
 	}
 
 	if v := zzGetenv("VERIF_C07_SCANLOG"); v != "" {
@@ -3136,6 +3352,7 @@ func TestZZVerifC07Trace(t *testing.T) {
 	full, err := x.project(0)
 	x.incremental = true
 	inc, err2 := x.project(0)
+	full.Attr = inc.Attr
 	if err != nil || err2 != nil || !reflect.DeepEqual(full, inc) {
 		t.Fatalf("incremental projection diverged: %v %v\n%v\n%v", err, err2, full, inc)
 	}
@@ -3223,6 +3440,150 @@ func zzC07ScanLog(t *testing.T, x *zzC07Log, emit func(ev string, extra map[stri
 	chains()
 
 	ask(&zzC07Q{Limit: 10, Term: "none", Status: "none"})
+	w.put(map[string]any{"ev": "summary", "lines": 0, "records": x.clock, "discard": x.discard,
+		"payload_bad": 0, "queries": x.queries, "bytes": x.maxFile})
+}
+
+// zzC07BurstLog is the free-running concurrent leg of direction B: several
+// goroutines call Add at the same time, as the DNS server does (one goroutine
+// per request), with nothing steering them.  After they are done the log is
+// at rest; it is flushed and rotated or not, and read sequentially: full
+// listing, the older_than chain and the offset chain.  The entries are
+// identified by the timestamps they were stored with (rank among the burst),
+// in the order they were pushed.  VERIF_C07_MEM must be larger than the
+// number of records.
+func zzC07BurstLog(t *testing.T, x *zzC07Log, emit func(ev string, extra map[string]any), w *zzWriter, rng *rand.Rand) {
+	const goroutines, each = 4, 60
+
+	reads := func() {
+		ask := func(q *zzC07Q) (r zzC07Reply) {
+			q.Scan = zzC07DefaultScan
+			if q.Offset != 0 {
+				q.Scan = 0
+			}
+
+			r = x.search(q)
+			if r.Data == nil {
+				r.Data = []int{}
+			}
+
+			r2 := x.search(q)
+			same := r2.St == r.St && zzC07EqInts(r2.Data, r.Data) && r2.Oldest == r.Oldest
+			emit("search", map[string]any{
+				"p": map[string]any{"older": q.Older, "limit": q.Limit, "offset": q.Offset, "term": q.Term, "status": q.Status, "scan": q.Scan},
+				"r": map[string]any{"st": r.St, "data": r.Data, "oldest": r.Oldest, "msg": r.Msg, "url": r.URL, "same": same},
+			})
+
+			return r
+		}
+
+		ask(&zzC07Q{Limit: zzC07Huge, Term: "none", Status: "none"})
+		cur := 0
+		for range x.clock {
+			r := ask(&zzC07Q{Older: cur, Limit: 7, Term: "none", Status: "none"})
+			if r.St != "ok" || r.Oldest <= 0 || r.Oldest == cur {
+				break
+			}
+
+			cur = r.Oldest
+		}
+
+		for off := 0; off < x.clock+7; off += 7 {
+			r := ask(&zzC07Q{Offset: off, Limit: 7, Term: "none", Status: "none"})
+			if r.St != "ok" || len(r.Data) == 0 && off > 0 {
+				break
+			}
+		}
+	}
+
+	for round := range 2 {
+		name, cli, reason := zzC07NameKeys[rng.Intn(4)], zzC07ClientKeys[rng.Intn(len(zzC07ClientKeys))], "notfound"
+		sh := zzC07ShapeFor(x.rng, reason)
+		base := len(x.ringTimes())
+
+		// The parameters are built beforehand (they use the seeded source,
+		// which is not for concurrent use); the Adds run free.
+		ps := make([][]*AddParams, goroutines)
+		host := ""
+		for g := range ps {
+			for range each {
+				var p *AddParams
+				p, host = x.params(name, cli, sh)
+				ps[g] = append(ps[g], p)
+			}
+		}
+
+		t0 := time.Now().UnixNano()
+		wg := &sync.WaitGroup{}
+		for g := range ps {
+			wg.Add(1)
+			go func() {
+				defer wg.Done()
+
+				for _, p := range ps[g] {
+					x.l.Add(p)
+				}
+			}()
+		}
+
+		wg.Wait()
+		t1 := time.Now().UnixNano()
+
+		pushed := x.ringTimes()[base:]
+		if len(pushed) != goroutines*each {
+			t.Fatalf("burst: %d entries in the ring, want %d", len(pushed), goroutines*each)
+		}
+
+		sorted := append([]int64{}, pushed...)
+		sort.Slice(sorted, func(i, j int) bool { return sorted[i] < sorted[j] })
+		rank := map[int64]int{}
+		for i, v := range sorted {
+			if i > 0 && v == sorted[i-1] || v <= x.last {
+				// Two requests read the same nanosecond: the entries cannot be
+				// told apart by their timestamps (outside the statement).
+				w.put(map[string]any{"ev": "summary", "discard": "equal timestamps in the burst"})
+
+				return
+			}
+
+			rank[v] = i + 1
+		}
+
+		first := x.clock
+		for range sorted {
+			x.tick(t0, t1, zzC07Rec{name: name, cli: cli, shape: sh, host: host})
+		}
+
+		tss := []int{}
+		inversions := 0
+		for i, v := range pushed {
+			n := first + rank[v]
+			x.exact[n], x.byTime[v] = v, n
+			tss = append(tss, 2*n)
+			if i > 0 && v < pushed[i-1] {
+				inversions++
+			}
+		}
+
+		x.last = t1
+		emit("burst", map[string]any{"tss": tss, "name": name, "cli": cli, "reason": reason, "n": len(tss), "inversions": inversions})
+
+		switch round {
+		case 0:
+			reads()
+			_ = x.step(nil, &zzC07Step{Act: "flush"}, false)
+			emit("flush", nil)
+			reads()
+		default:
+			if rng.Intn(2) == 0 {
+				_ = x.step(nil, &zzC07Step{Act: "rotate"}, false)
+				emit("rotate", nil)
+			}
+
+			reads()
+		}
+	}
+
 	w.put(map[string]any{"ev": "summary", "lines": 0, "records": x.clock, "discard": x.discard,
 		"payload_bad": 0, "queries": x.queries, "bytes": x.maxFile})
 }
